@@ -365,6 +365,35 @@ theorem taproot_assemble_total (ls : List TapTree) (h : ls ≠ []) : ∃ t, asse
 
 example : (assembleTree [.leaf 0 0xc0 [0x51], .leaf 1 0xc0 [0x52], .leaf 2 0xc0 [0x51]]).isSome = true := by decide
 
+/-! ### secondary entry points agree with the primary ones -/
+
+/-- `Decode…` = `DecodeNoLimit…` up to 90 characters, an error beyond -/
+theorem bech32_decode_variants_agree (s : List UInt8) :
+    bechDecode s = if s.length > 90 then .error .length else bechDecodeNoLimit s :=
+  Lemmas.bechDecode_noLimit s
+
+/-- `DeriveNonStandard` = `Derive` for parents whose private key is stored with all 32 bytes (what
+`NewKeyFromString` / `NewMaster` produce) — they differ only for keys affected by issue 172 -/
+theorem derive_variants_agree {Pt : Type} (C : Curve Pt) (hmac : List UInt8 → List UInt8 → List UInt8)
+    (h160 : List UInt8 → List UInt8) (k : XKey) (i : Nat)
+    (hlen : k.isPrivate = true → k.key.length = 32 ∧ beNat k.key < C.n)
+    (hil : ∀ data, beNat ((hmac k.chainCode data).take 32) ≠ 0) :
+    deriveNonStd C hmac h160 k i = derive C hmac h160 k i :=
+  Lemmas.deriveNonStd_eq_derive C hmac h160 k i hlen hil
+
+/-- whatever `ComputePkScript` reconstructs is recognised as the class it reports -/
+theorem computePkScript_class (h160 sha : List UInt8 → List UInt8) (h20 : ∀ x, (h160 x).length = 20)
+    (h32 : ∀ x, (sha x).length = 32) (sig : List UInt8) (wit : List (List UInt8)) (c : ScriptClass) (s : List UInt8)
+    (h : computePkScript h160 sha sig wit = some (c, s)) : getScriptClass s = c :=
+  Lemmas.computePkScript_class h160 sha h20 h32 sig wit c s h
+
+/-- `ExtractWitnessProgramInfo` agrees with the P2WPKH / P2WSH / P2TR extractors -/
+theorem witness_program_info_templates (s p : List UInt8) :
+    (extractWitnessPubKeyHash s = some p → witnessProgramInfo s = some (0, p)) ∧
+    (extractWitnessV0ScriptHash s = some p → witnessProgramInfo s = some (0, p)) ∧
+    (extractWitnessV1KeyBytes s = some p → witnessProgramInfo s = some (1, p)) :=
+  Lemmas.witnessProgramInfo_templates s p
+
 /-! ### constants regenerated from the compiled tree (T2) -/
 
 theorem pin_names : Spec.nets.map (·.name) =
